@@ -127,6 +127,11 @@ def gen_client(rng, n_ops, soak=False):
         elif r < 92:
             lines.append("rx " + apci.TESTFR_ACT.hex())
             lines.append("step")
+        elif r < 93 and not soak:
+            # the socket takes nothing for one send (write returns 0: send buffer full): the frame is not sent, the call fails, the next
+            # I-format APDU that IS written carries the next number in sequence
+            lines += ["wmode 2", "send " + apci.asdu(45, 6, 1, bytes([sid & 255, sid >> 8 & 255, 0, 1])).hex(), "wmode 0"]
+            sid += 1
         elif r < 95 and not soak:
             lines += ["close", "connect"]
             if rng.chance(1, 2):
